@@ -102,11 +102,14 @@ inductive Path (p : Skel) : Nat → Nat → Prop
 
 def IllFormedInclude (s : Summary) : Prop := s.kind = .source ∧ ∃ n, Top.incl n ∈ s.items
 
-def IllFormedDsLattice (s : Summary) : Prop := ∃ d ∈ s.decls, d.lat = true ∧ ∃ a ∈ d.attrs, a.name = "ds"
+/-- a `lattice` declaration that takes part in the program (`Summary.effDecls`: it is not replaced by a later
+identical re-declaration) carries a `ds` attribute -/
+def IllFormedDsLattice (s : Summary) : Prop := ∃ d ∈ s.effDecls, d.lat = true ∧ ∃ a ∈ d.attrs, a.name = "ds"
 
 def hasTwoDs (as : List AttrS) : Prop := 2 ≤ (as.filter fun a => a.name == "ds").length
 
-def IllFormedTwoDs (s : Summary) : Prop := hasTwoDs s.attrs ∨ ∃ d ∈ s.decls, hasTwoDs d.attrs
+/-- two `ds` attributes on the program or on a declaration that takes part in the program (`Summary.effDecls`) -/
+def IllFormedTwoDs (s : Summary) : Prop := hasTwoDs s.attrs ∨ ∃ d ∈ s.effDecls, hasTwoDs d.attrs
 
 def IllFormedUnknownAttr (s : Summary) : Prop := ∃ a ∈ s.attrs, a.name ∉ recognizedAttrs
 
@@ -183,7 +186,9 @@ structure WellFormedCore (s : Summary) (rules : List CoreRule) : Prop where
   attrsPlain : ∀ a ∈ s.attrs, a.name ≠ "ds" → a.shape = .path
   parOnly : (∃ a ∈ s.attrs, a.name = "inter_rule_parallelism") → s.kind.parallel = true
   progDs : dsOk s.attrs
-  declDs : ∀ d ∈ s.decls, dsOk d.attrs ∧ (d.lat = true → ∀ a ∈ d.attrs, a.name ≠ "ds")
+  /-- over the declarations that take part in the program: the attributes of a declaration replaced by a later
+  identical re-declaration are never looked at -/
+  declDs : ∀ d ∈ s.effDecls, dsOk d.attrs ∧ (d.lat = true → ∀ a ∈ d.attrs, a.name ≠ "ds")
   stratified : ¬ IllFormedStrat s rules
   aggBound : ¬ IllFormedAggBound rules
   sigOk : ¬ IllFormedSig s
